@@ -315,3 +315,41 @@ def _creation_index(label):
     digits = "".join(ch for ch in str(label) if ch.isdigit())
     v = int(digits) if digits else 0
     return -v if str(label).startswith("n") else v
+
+
+# ------------------------------------------------------------------------------- operation histories
+def gen_history(rng, n_obs, width, allow_cwd=False, allow_restart=True, max_ops=4, unique=None):
+    """match(prefix) followed by a random sequence of extend / widen / restart / continue-with-distance(+expand).
+    Widths are non-decreasing; `cwd` is only *issued* by the executor after an early stop (its documented use)."""
+    k = rng.randint(1, n_obs)
+    if rng.random() < 0.4:
+        k = n_obs
+    uq = (lambda: rng.random() < 0.5) if unique is None else (lambda: unique)
+    ops = [{"op": "match", "k": k, "unique": uq()}]
+    W = width
+    for _ in range(rng.randint(0, max_ops)):
+        choices = []
+        if k < n_obs:
+            choices += ["extend", "extend"]
+        if W is not None:
+            choices += ["widen", "widen"]
+        if allow_restart:
+            choices += ["match"]
+        if allow_cwd:
+            choices += ["cwd"]
+        if not choices:
+            break
+        o = rng.choice(choices)
+        if o == "extend":
+            k = rng.randint(k + 1, n_obs)
+            ops.append({"op": "extend", "k": k, "unique": uq()})
+        elif o == "widen":
+            W += rng.randint(0, 2)
+            ops.append({"op": "widen", "w": W, "unique": uq()})
+        elif o == "match":
+            k = rng.randint(1, n_obs)
+            ops.append({"op": "match", "k": k, "unique": uq()})
+        else:
+            ops.append({"op": "cwd"})
+            ops.append({"op": "extend", "k": k, "unique": uq()})
+    return ops
